@@ -1,5 +1,7 @@
 //! C18 — element containers never duplicate, leak or touch a moved-out element.
+#![allow(dropping_copy_types, clippy::all)]
 use stateright::{Checker, Model, Property};
+use std::borrow::{Borrow, BorrowMut};
 use std::collections::hash_map::DefaultHasher;
 use std::fmt::Debug;
 use std::hash::{Hash, Hasher};
@@ -14,7 +16,11 @@ use vx::*;
 #[derive(Clone, Debug, PartialEq, Eq, Hash)]
 enum S { Live { f: u8, b: u8 }, Dropped { f: u8, b: u8 }, Bad { class: &'static str, detail: String } }
 #[derive(Clone, Copy, Debug, PartialEq, Eq, Hash)]
-enum Act { Next, NextBack, Len, Observe, Drop }
+enum Act { Next, NextBack, Len, Observe, Drop,
+    /// `nth(k)` / `nth_back(k)` with k >= 1: k elements are consumed (dropped) BY THE ITERATOR, the next one is yielded
+    Nth(u8), NthBack(u8),
+    /// consuming adaptors that end the iterator's life: `count()`, `last()`, `rev().collect()`
+    Count, Last, RevCollect }
 
 /// Build a fresh real iterator over fresh tokens 0..N, pull `f` from the front and `b` from the back,
 /// checking every pull against the reference (a deque of ids). Returns the iterator and the pulled tokens.
@@ -43,7 +49,11 @@ where V: VecN<Tok> + IntoIterator<Item = Tok>, V::IntoIter: DoubleEndedIterator 
     let n = V::N;
     let (fu, bu) = (f as usize, b as usize);
     let bad = |(class, detail): (&'static str, String)| S::Bad { class, detail };
-    let (mut it, mut held) = match replay::<V>(fu, bu) { Ok(x) => x, Err(e) => return bad(e) };
+    let (it, mut held) = match replay::<V>(fu, bu) { Ok(x) => x, Err(e) => return bad(e) };
+    // the iterator is only ever dropped explicitly: if the real code panics with its cursors out of order, unwinding must not run its
+    // Drop a second time on the broken state (a panic inside a panic would abort the explorer instead of giving a verdict)
+    let mut it = std::mem::ManuallyDrop::new(it);
+    macro_rules! take { ($it:expr) => { std::mem::ManuallyDrop::into_inner($it) } }
     let rem = n - fu - bu;
     let mut next = S::Live { f, b };
     match a {
@@ -67,15 +77,62 @@ where V: VecN<Tok> + IntoIterator<Item = Tok>, V::IntoIter: DoubleEndedIterator 
         }
         Act::Observe => {
             tok::set_watch(true);
-            let _ = format!("{:?}", it);
+            let _ = format!("{:?}", *it);
             #[allow(clippy::eq_op)]
-            let _ = it == it;
-            let mut h = DefaultHasher::new(); it.hash(&mut h); let _ = h.finish();
+            let _ = *it == *it;
+            let mut h = DefaultHasher::new(); (*it).hash(&mut h); let _ = h.finish();
+            // the other formatting / comparison forms: pretty-printing Debug, `!=`, and a hash of a borrowed iterator
+            let _ = format!("{:#?}", *it);
+            #[allow(clippy::eq_op)]
+            let _ = *it != *it;
+            let mut h = DefaultHasher::new(); (&*it).hash(&mut h); let _ = h.finish();
             tok::set_watch(false);
             if let Some(fl) = tok::faults().into_iter().next() { return bad(("safe-observation-reads-moved-out-element", fl)); }
         }
+        Act::Nth(k) | Act::NthBack(k) => {
+            let (k, front) = (k as usize, matches!(a, Act::Nth(_)));
+            let got = if front { it.nth(k) } else { it.nth_back(k) };
+            let want = if rem > k { Some(if front { fu + k } else { n - 1 - bu - k }) } else { None };
+            if got.as_ref().map(|t| t.id as usize) != want { return bad(("wrong-element-from-nth", format!("remaining {}, {}({}) gave {:?}, the reference deque gives {:?}", rem, if front { "nth" } else { "nth_back" }, k, got.map(|t| t.id), want))); }
+            let consumed = (k + 1).min(rem);
+            let yielded_now = got.as_ref().map(|t| t.id as usize);
+            if let Some(t) = got { tok::mark_yielded(t.id); held.push(t); }
+            let rem2 = rem - consumed;
+            if it.len() != rem2 || it.size_hint() != (rem2, Some(rem2)) { return bad(("wrong-length-report", format!("after {}({}) on {} remaining: len() = {}, size_hint() = {:?}, want {}", if front { "nth" } else { "nth_back" }, k, rem, it.len(), it.size_hint(), rem2))); }
+            // nothing that was skipped may be handed out afterwards: drain the rest against the reference
+            let (lo, hi) = if front { (fu + consumed, n - bu) } else { (fu, n - bu - consumed) };
+            for id in lo..hi { match it.next() { Some(t) if t.id as usize == id => { tok::mark_yielded(t.id); held.push(t) } o => return bad(("wrong-element-from-next", format!("draining after {}({}): expected {}, got {:?}", if front { "nth" } else { "nth_back" }, k, id, o.map(|t| t.id)))) } }
+            if let Some(t) = it.next() { return bad(("wrong-element-from-next", format!("iterator yields element {} after it should be exhausted (after nth)", t.id))); }
+            drop(take!(it));
+            let st = tok::states();
+            let skipped = if front { fu..fu + consumed } else { n - bu - consumed..n - bu };
+            for id in skipped { if Some(id) != yielded_now && st[id] != St::Dropped { return bad(("nth-leaks-skipped-element", format!("element {} was skipped by {}({}) and never dropped", id, if front { "nth" } else { "nth_back" }, k))); } }
+            for t in &held { if st[t.id as usize] == St::Dropped { return bad(("drop-drops-yielded-element", format!("element {} was yielded to the caller and dropped by the iterator as well", t.id))); } }
+            if let Some(fl) = tok::faults().into_iter().next() { return bad(("ledger-fault", fl)); }
+            drop(held);
+            if let Err(e) = ledger_balanced(n) { return bad(e); }
+            return if front { S::Live { f: f + consumed as u8, b } } else { S::Live { f, b: b + consumed as u8 } };
+        }
+        Act::Count | Act::Last | Act::RevCollect => {
+            let live: Vec<usize> = (fu..n - bu).collect();
+            let mut kept: Vec<Tok> = Vec::new();
+            match a {
+                Act::Count => { let c = take!(it).count(); if c != rem { return bad(("count-disagrees-with-remaining", format!("count() = {}, remaining {}", c, rem))); } }
+                Act::Last => { let l = take!(it).last(); if l.as_ref().map(|t| t.id as usize) != live.last().copied() { return bad(("wrong-element-from-last", format!("last() gave {:?}, want {:?}", l.map(|t| t.id), live.last()))); } if let Some(t) = l { tok::mark_yielded(t.id); kept.push(t); } }
+                _ => { let v: Vec<Tok> = take!(it).rev().collect(); let g: Vec<usize> = v.iter().map(|t| t.id as usize).collect(); let w: Vec<usize> = live.iter().rev().copied().collect(); if g != w { return bad(("wrong-order-from-rev-collect", format!("rev().collect() gave {:?}, want {:?}", g, w))); } for t in &v { tok::mark_yielded(t.id); } kept = v; }
+            }
+            let st = tok::states();
+            for id in 0..n {
+                let in_hand = held.iter().chain(kept.iter()).any(|t| t.id as usize == id);
+                if in_hand && st[id] == St::Dropped { return bad(("drop-drops-yielded-element", format!("element {} was yielded to the caller and dropped by the iterator as well ({:?})", id, a))); }
+                if !in_hand && st[id] != St::Dropped { return bad(("drop-leaks-unyielded-element", format!("element {} was consumed by {:?} and never dropped", id, a))); }
+            }
+            if let Some(fl) = tok::faults().into_iter().next() { return bad(("ledger-fault", fl)); }
+            drop(held); drop(kept);
+            return match ledger_balanced(n) { Ok(()) => S::Dropped { f, b }, Err(e) => bad(e) };
+        }
         Act::Drop => {
-            drop(it);
+            drop(take!(it));
             let st = tok::states();
             for id in 0..n {
                 let live = id >= fu && id < n - bu;
@@ -88,34 +145,42 @@ where V: VecN<Tok> + IntoIterator<Item = Tok>, V::IntoIter: DoubleEndedIterator 
         }
     }
     // every transition also ends the iterator's life: the ledger must balance from every state
-    drop(it); drop(held);
+    drop(take!(it)); drop(held);
     if let Err(e) = ledger_balanced(n) { return bad(e); }
     next
 }
 
-struct IterModel<V> { transitions: Arc<AtomicU64>, _p: PhantomData<fn() -> V> }
+struct IterModel<V> { transitions: Arc<AtomicU64>, ks: Vec<u8>, _p: PhantomData<fn() -> V> }
 impl<V> Model for IterModel<V>
 where V: VecN<Tok> + IntoIterator<Item = Tok> + 'static, V::IntoIter: DoubleEndedIterator + ExactSizeIterator + Debug + PartialEq + Hash {
     type State = S;
     type Action = Act;
     fn init_states(&self) -> Vec<S> { vec![S::Live { f: 0, b: 0 }] }
-    fn actions(&self, s: &S, acts: &mut Vec<Act>) { if let S::Live { .. } = s { acts.extend([Act::Next, Act::NextBack, Act::Len, Act::Observe, Act::Drop]); } }
+    fn actions(&self, s: &S, acts: &mut Vec<Act>) { if let S::Live { .. } = s {
+        acts.extend([Act::Next, Act::NextBack, Act::Len, Act::Observe, Act::Drop, Act::Count, Act::Last, Act::RevCollect]);
+        for &k in &self.ks { acts.push(Act::Nth(k)); acts.push(Act::NthBack(k)); }
+    } }
     fn next_state(&self, s: &S, a: Act) -> Option<S> {
         let S::Live { f, b } = s else { return None };
         self.transitions.fetch_add(1, Relaxed);
-        Some(step::<V>(*f, *b, a))
+        // a panic of the real code (e.g. an out-of-range slice of the slot array) is a verdict, not a crash of the explorer
+        Some(match catch(|| step::<V>(*f, *b, a)) { Ok(s) => s, Err(c) => S::Bad { class: "panic", detail: format!("{:?} in state (front {}, back {}): {:?}", a, f, b, c) } })
     }
     fn properties(&self) -> Vec<Property<Self>> { vec![Property::always("real iterator agrees with the reference deque and the ownership ledger", |_, s| !matches!(s, S::Bad { .. }))] }
 }
 
 struct McTotals { states: u64, transitions: u64, max_depth: usize, samples: Vec<Value> }
 
+/// skip counts explored for nth/nth_back: quick {1, 3}; thorough every k in 1..=N (k = N always overshoots)
+fn nth_ks(n: usize, thorough: bool) -> Vec<u8> { let v: Vec<usize> = if thorough { (1..=n).collect() } else { vec![1, 3] }; v.into_iter().map(|k| k as u8).collect() }
+
 fn model_check<V>(s: &Section, tot: &mut McTotals)
 where V: VecN<Tok> + IntoIterator<Item = Tok> + 'static, V::IntoIter: DoubleEndedIterator + ExactSizeIterator + Debug + PartialEq + Hash {
     let mut counts = Vec::new();
+    let ks = nth_ks(V::N, s.thorough());
     for _run in 0..2 {
         let tr = Arc::new(AtomicU64::new(0));
-        let ck = IterModel::<V> { transitions: tr.clone(), _p: PhantomData }.checker().threads(8).spawn_bfs().join();
+        let ck = IterModel::<V> { transitions: tr.clone(), ks: ks.clone(), _p: PhantomData }.checker().threads(1).spawn_bfs().join();
         let (us, t, md) = (ck.unique_state_count() as u64, tr.load(Relaxed), ck.max_depth());
         if let Some(path) = ck.discoveries().into_values().next() {
             let acts: Vec<String> = path.clone().into_actions().iter().map(|a| format!("{:?}", a)).collect();
@@ -133,10 +198,13 @@ where V: VecN<Tok> + IntoIterator<Item = Tok> + 'static, V::IntoIter: DoubleEnde
     let n = V::N as u64;
     let expect_states = (n + 1) * (n + 2) / 2 * 2; // every (f,b) live, and its Dropped twin
     if us != expect_states { s.rep.machinery_error(format!("{}: reached {} states, the (front,back) triangle and its dropped twins have {}", V::NAME, us, expect_states)); }
+    // every live state has 8 fixed actions + 2 per skip count; dropped twins have none
+    let expect_transitions = (n + 1) * (n + 2) / 2 * (8 + 2 * ks.len() as u64);
+    if t != expect_transitions { s.rep.machinery_error(format!("{}: executed {} transitions, {} live states x {} actions = {}", V::NAME, t, (n + 1) * (n + 2) / 2, 8 + 2 * ks.len(), expect_transitions)); }
     s.evals(t, t); s.class(V::NAME);
     tot.states += us; tot.transitions += t; tot.max_depth = tot.max_depth.max(md);
     if tot.samples.len() < 3 { tot.samples.push(json!({"type": V::NAME, "n": V::N, "history": ["Next", "NextBack", "Observe", "Len", "Drop"], "reaches_state": "Dropped{f:1,b:1}"})); }
-    s.meta(V::NAME, json!({"states": us, "transitions": t, "max_depth": md, "fixpoint": true}));
+    s.meta(V::NAME, json!({"states": us, "transitions": t, "max_depth": md, "fixpoint": true, "nth_skip_counts": ks}));
 }
 
 // ---- unmerged histories (no state merging at all) -----------------------------------------------
@@ -165,7 +233,7 @@ where V: VecN<Tok> + IntoIterator<Item = Tok> + 'static, V::IntoIter: DoubleEnde
                 Act::Len => { if it.len() != dq.len() || it.size_hint() != (dq.len(), Some(dq.len())) { s.violation_w(&site, "wrong-length-report", json!({"history": hist(seq)}), seq.len() as u64); ok = false; break; } }
                 Act::Observe => { tok::set_watch(true); let _ = format!("{:?}", it); let mut h = DefaultHasher::new(); it.hash(&mut h); #[allow(clippy::eq_op)] let _ = it == it; tok::set_watch(false);
                     if let Some(fl) = tok::faults().into_iter().next() { s.violation_w(&site, "safe-observation-reads-moved-out-element", json!({"history": hist(seq), "what": fl}), seq.len() as u64); ok = false; break; } }
-                Act::Drop => unreachable!(),
+                _ => unreachable!(),
             }
         }
         s.eval(!seq.is_empty());
@@ -198,11 +266,11 @@ where V: VecN<Tok> + IntoIterator<Item = Tok> + 'static, V::IntoIter: DoubleEnde
 fn compare_pairs<V>(s: &Section)
 where V: VecN<Tok> + IntoIterator<Item = Tok> + 'static, V::IntoIter: DoubleEndedIterator + ExactSizeIterator + Debug + PartialEq + Hash {
     let n = V::N;
-    let cur: Vec<usize> = if n <= 8 { (0..=n).collect() } else { let mut v = vec![0, 1, 2, n / 2, n - 2, n - 1, n]; v.sort(); v.dedup(); v };
+    let cur: Vec<usize> = if n <= 8 || s.thorough() { (0..=n).collect() } else { let mut v = vec![0, 1, 2, n / 2, n - 2, n - 1, n]; v.sort(); v.dedup(); v };
     let states: Vec<(usize, usize)> = cur.iter().flat_map(|&f| cur.iter().map(move |&b| (f, b))).filter(|&(f, b)| f + b <= n).collect();
     let site = format!("{}::IntoIter", V::NAME);
-    let mut cnt = 0u64;
-    for &(f1, b1) in &states { for &(f2, b2) in &states {
+    let cnt = (states.len() * states.len()) as u64;
+    let pair = |f1: usize, b1: usize, f2: usize, b2: usize| {
         tok::reset();
         let v1 = V::from_elems((0..n).map(|i| Tok::with_val(1000 + i as u32)).collect::<Vec<_>>());
         let v2 = V::from_elems((0..n).map(|i| Tok::with_val((1000 + i + f1 - f2) as u32)).collect::<Vec<_>>());
@@ -215,7 +283,6 @@ where V: VecN<Tok> + IntoIterator<Item = Tok> + 'static, V::IntoIter: DoubleEnde
         tok::set_watch(true);
         let (e1, e2, n1) = (a == b, b == a, a != b);
         tok::set_watch(false);
-        cnt += 1;
         let differ = (f1, b1) != (f2, b2);
         s.eval(differ);
         if let Some(fl) = tok::faults().into_iter().next() {
@@ -225,10 +292,16 @@ where V: VecN<Tok> + IntoIterator<Item = Tok> + 'static, V::IntoIter: DoubleEnde
         if s.wants_sample() && differ && f1 > 0 && b2 > 0 { s.sample(json!({"type": V::NAME, "left(front,back pulls)": [f1, b1], "right(front,back pulls)": [f2, b2], "a==b": e1})); }
         drop(a); drop(b); drop(held);
         if let Err((c, d)) = ledger_balanced(2 * n) { s.violation(&site, c, json!({"what": d, "left": [f1, b1], "right": [f2, b2]})); }
-    } }
+    };
+    // thorough: the rows of the pair table run on the rayon pool (the ledger is thread-local and reset per pair)
+    if s.thorough() { use rayon::prelude::*; states.par_iter().for_each(|&(f1, b1)| { for &(f2, b2) in &states { pair(f1, b1, f2, b2); } }); }
+    else { for &(f1, b1) in &states { for &(f2, b2) in &states { pair(f1, b1, f2, b2); } } }
     s.class(V::NAME);
     s.meta(V::NAME, json!({"cursor_states": states.len(), "ordered_pairs": cnt}));
 }
+
+/// Run one block of checks; a panic of the real code inside it is a violation of class `panic`, not the end of the section.
+fn guarded(s: &Section, label: String, f: impl FnOnce()) { if let Err(c) = catch(f) { s.violation(&label, "panic", json!({"what": format!("{:?}", c)})); } }
 
 // ---- conversions move each element exactly once ---------------------------------------------------
 fn ids(v: &[Tok]) -> Vec<u32> { v.iter().map(|t| t.id).collect() }
@@ -237,7 +310,7 @@ fn no_drops_yet(s: &Section, site: &str) { let d = tok::dropped_ids(); if !d.is_
 fn all_dropped_once(s: &Section, site: &str, n: usize) { if let Err((c, d)) = ledger_balanced(n) { s.violation(site, c, json!({"what": d})); } if tok::dropped_ids().len() != tok::count() { s.violation(site, "drop-count-mismatch", json!({"dropped": tok::dropped_ids().len(), "created": tok::count()})); } }
 
 macro_rules! conv_vec { ($s:expr, $V:ident, $n:expr) => {{
-    let s: &Section = $s; const N: usize = $n; let name = <$V<Tok> as VecN<Tok>>::NAME;
+    #[inline(never)] fn go(s: &Section) { const N: usize = $n; let name = <$V<Tok> as VecN<Tok>>::NAME;
     // From<[T;N]>
     { let site = format!("From<[T;{}]> for {}", N, name); s.eval(true);
       let a: [Tok; N] = fresh(N).try_into().ok().unwrap();
@@ -285,9 +358,10 @@ macro_rules! conv_vec { ($s:expr, $V:ident, $n:expr) => {{
       if ids(v2.as_slice()) != (0..N as u32).collect::<Vec<_>>() || v2.iter().map(|t| t.id).ne(0..N as u32) { s.violation(&site, "wrong-order", json!({})); }
       drop(v2); all_dropped_once(s, &site, N); }
     s.class(name);
+    } let s_: &Section = $s; guarded(s_, format!("conv_vec! {}", stringify!($V)), || go(s_));
 }} }
 macro_rules! conv_tuple { ($s:expr, $V:ident, [$($i:tt),*], $n:expr) => {{
-    let s: &Section = $s; const N: usize = $n; let name = <$V<Tok> as VecN<Tok>>::NAME;
+    #[inline(never)] fn go(s: &Section) { const N: usize = $n; let name = <$V<Tok> as VecN<Tok>>::NAME;
     { let site = format!("{}::into_tuple", name); s.eval(true);
       let v = <$V<Tok> as VecN<Tok>>::from_elems(fresh(N)); let t = v.into_tuple(); no_drops_yet(s, &site);
       let got = vec![$(t.$i.id),*]; if got != (0..N as u32).collect::<Vec<_>>() { s.violation(&site, "wrong-order", json!({"got": got})); }
@@ -297,10 +371,11 @@ macro_rules! conv_tuple { ($s:expr, $V:ident, [$($i:tt),*], $n:expr) => {{
       let v = $V::from(t); no_drops_yet(s, &site);
       let e = v.into_elems(); if ids(&e) != (0..N as u32).collect::<Vec<_>>() { s.violation(&site, "wrong-order", json!({"got": ids(&e)})); }
       drop(e); all_dropped_once(s, &site, N); }
+    } let s_: &Section = $s; guarded(s_, format!("conv_tuple! {}", stringify!($V)), || go(s_));
 }} }
 
 macro_rules! conv_mat { ($s:expr, $M:ident, $n:expr, $lay:ident, $layname:expr, $lines:ident, $V:ident) => {{
-    let s: &Section = $s; const N: usize = $n; const NN: usize = N * N;
+    #[inline(never)] fn go(s: &Section) { const N: usize = $n; const NN: usize = N * N;
     let name = format!("Mat{}<{}>", N, $layname);
     // element (i,j) carries id i*N+j
     let build = || -> $lay::$M<Tok> {
@@ -329,6 +404,516 @@ macro_rules! conv_mat { ($s:expr, $M:ident, $n:expr, $lay:ident, $layname:expr, 
     { let site = format!("{}::from_col_arrays", name); s.eval(true); let mut it = fresh(NN).into_iter(); let a: [[Tok; N]; N] = std::array::from_fn(|_| std::array::from_fn(|_| it.next().unwrap())); let m = $lay::$M::from_col_arrays(a); no_drops_yet(s, &site); let g = decode(m);
       let want_t: Vec<Vec<u32>> = (0..N).map(|i| (0..N).map(|j| (j * N + i) as u32).collect()).collect(); if g != want_t { s.violation(&site, "wrong-order", json!({"got": g})); } all_dropped_once(s, &site, NN); }
     s.class(&name);
+    } let s_: &Section = $s; guarded(s_, format!("conv_mat! {} {} {}", stringify!($V), stringify!($M), stringify!($lay)), || go(s_));
+}} }
+
+// =====================================================================================================
+// Additions after the clause-by-clause audit (out/AUDIT.md)
+// =====================================================================================================
+
+// ---- pull-only unmerged histories for wider vectors ---------------------------------------------------
+/// Every sequence over {next, next_back} of length <= N+1 (so every order of draining, and one pull beyond exhaustion), each
+/// executed from scratch on one real iterator with NO state merging; after every pull: len/size_hint and the observation set with
+/// the ledger watching; then drop and the ledger. Sequences are numbered (length, bitmask) and run on the rayon pool
+/// (the ledger is thread-local, every history resets its own).
+fn pull_histories<V>(s: &Section)
+where V: VecN<Tok> + IntoIterator<Item = Tok> + 'static, V::IntoIter: DoubleEndedIterator + ExactSizeIterator + Debug + PartialEq + Hash {
+    use rayon::prelude::*;
+    let n = V::N;
+    let site = format!("{}::IntoIter", V::NAME);
+    let total: u64 = (0..=n as u32 + 1).map(|l| 1u64 << l).sum();
+    (0..=n + 1).into_par_iter().for_each(|len| {
+        (0u64..1u64 << len).into_par_iter().for_each(|mask| {
+            let hist = || (0..len).map(|i| if mask >> i & 1 == 0 { "Next" } else { "NextBack" }).collect::<Vec<_>>();
+            let r = catch(|| {
+                tok::reset();
+                let v = V::from_elems((0..n).map(|_| Tok::new()).collect());
+                let mut it = v.into_iter();
+                let mut dq: std::collections::VecDeque<u32> = (0..n as u32).collect();
+                let mut held: Vec<Tok> = Vec::new();
+                for i in 0..len {
+                    let back = mask >> i & 1 == 1;
+                    let (g, w) = if back { (it.next_back(), dq.pop_back()) } else { (it.next(), dq.pop_front()) };
+                    if g.as_ref().map(|t| t.id) != w { s.violation_w(&site, if back { "wrong-element-from-next_back" } else { "wrong-element-from-next" }, json!({"history": hist(), "step": i, "got": g.map(|t| t.id), "want": w}), len as u64); return; }
+                    if let Some(t) = g { tok::mark_yielded(t.id); held.push(t); }
+                    if it.len() != dq.len() || it.size_hint() != (dq.len(), Some(dq.len())) { s.violation_w(&site, "wrong-length-report", json!({"history": hist(), "step": i, "len": it.len(), "want": dq.len()}), len as u64); return; }
+                    tok::set_watch(true);
+                    let _ = format!("{:?}", it); let mut h = DefaultHasher::new(); it.hash(&mut h);
+                    #[allow(clippy::eq_op)] let _ = it == it;
+                    tok::set_watch(false);
+                    if let Some(fl) = tok::faults().into_iter().next() { s.violation_w(&site, "safe-observation-reads-moved-out-element", json!({"history": hist(), "step": i, "what": fl}), len as u64); return; }
+                }
+                drop(it);
+                let st = tok::states();
+                for id in 0..n { let live = dq.contains(&(id as u32)); if live != (st[id] == St::Dropped) { s.violation_w(&site, if live { "drop-leaks-unyielded-element" } else { "drop-drops-yielded-element" }, json!({"history": hist(), "element": id}), len as u64); } }
+                drop(held);
+                if let Err((c, d)) = ledger_balanced(n) { s.violation_w(&site, c, json!({"history": hist(), "what": d}), len as u64); }
+            });
+            if let Err(c) = r { s.violation_w(&site, "panic", json!({"history": hist(), "what": format!("{:?}", c)}), len as u64); }
+        });
+    });
+    s.evals(total, total - 1);
+    s.class(V::NAME);
+    s.meta(V::NAME, json!({"histories": total, "max_length": n + 1}));
+    if s.wants_sample() { s.sample(json!({"type": V::NAME, "history": ["NextBack", "Next", "Next", "NextBack", "<drop>"], "after every pull": "len, size_hint, Debug/Hash/== with the ledger watching"})); }
+}
+
+// ---- element shapes ------------------------------------------------------------------------------------
+// The property quantifies over "element types that are not Copy"; `Tok` is 8 bytes, align 4. The raw reads (ptr::read out of
+// ManuallyDrop slots, MaybeUninit + transmute_unchecked in the matrices, slice::from_raw_parts) must be right for every size and
+// alignment, including zero-sized droppable elements, so the same ledger runs over several shapes of element.
+thread_local! { static ZC: std::cell::Cell<(u64, u64)> = const { std::cell::Cell::new((0, 0)) }; }
+/// zero-sized, not Copy, with a Drop that counts
+#[derive(Debug, PartialEq, Hash)]
+struct Zst;
+impl Drop for Zst { fn drop(&mut self) { let _ = ZC.try_with(|c| { let (a, b) = c.get(); c.set((a, b + 1)); }); } }
+fn zst_counts() -> (u64, u64) { ZC.with(|c| c.get()) }
+fn reset_all() { tok::reset(); ZC.with(|c| c.set((0, 0))); }
+fn dropped_total() -> usize { tok::dropped_ids().len() + zst_counts().1 as usize }
+fn balanced_all() -> Result<(), (&'static str, String)> {
+    if let Some(f) = tok::faults().into_iter().next() { return Err(("ledger-fault", f)); }
+    if let Some(id) = tok::states().iter().position(|x| *x != St::Dropped) { return Err(("element-leaked", format!("element {} was never dropped", id))); }
+    let (c, d) = zst_counts();
+    if d > c { return Err(("ledger-fault", format!("{} zero-sized elements created, {} dropped", c, d))); }
+    if d < c { return Err(("element-leaked", format!("{} zero-sized elements created, only {} dropped", c, d))); }
+    Ok(())
+}
+
+trait Payload: Sized + Debug + PartialEq + Hash { const NAME: &'static str; fn of(id: u32) -> Self; }
+impl Payload for u8 { const NAME: &'static str = "(Tok,u8): 12 bytes"; fn of(id: u32) -> u8 { (id * 7 + 3) as u8 } }
+impl Payload for u128 { const NAME: &'static str = "(Tok,u128): align 16"; fn of(id: u32) -> u128 { ((id as u128 + 1) << 100) | (id as u128 * 0x0001_0001_0001) } }
+impl Payload for [u64; 5] { const NAME: &'static str = "(Tok,[u64;5]): 48 bytes"; fn of(id: u32) -> [u64; 5] { let x = id as u64 + 1; [x, x << 8, x << 16, x << 24, !x] } }
+#[repr(align(32))] #[derive(Debug, PartialEq, Hash)] struct Al32(u64);
+impl Payload for Al32 { const NAME: &'static str = "(Tok,align32): align 32, 64 bytes"; fn of(id: u32) -> Al32 { Al32(0xA5A5_0000_0000 | id as u64) } }
+/// a token with a payload derived from its id (a read at a wrong offset or of a wrong width breaks `intact`)
+#[derive(Debug, PartialEq, Hash)]
+struct Pad<P> { t: Tok, p: P }
+
+trait Elem: Sized + Debug + PartialEq + Hash + Default { const SHAPE: &'static str; const TRACKED: bool; fn make() -> Self; fn eid(&self) -> u32; fn intact(&self) -> bool; }
+impl Elem for Tok { const SHAPE: &'static str = "Tok: 8 bytes"; const TRACKED: bool = true; fn make() -> Tok { Tok::new() } fn eid(&self) -> u32 { self.id } fn intact(&self) -> bool { self.val == self.id } }
+impl<P: Payload> Default for Pad<P> { fn default() -> Self { Self::make() } }
+impl<P: Payload> Elem for Pad<P> { const SHAPE: &'static str = P::NAME; const TRACKED: bool = true; fn make() -> Self { let t = Tok::new(); let p = P::of(t.id); Pad { t, p } } fn eid(&self) -> u32 { self.t.id } fn intact(&self) -> bool { self.p == P::of(self.t.id) && self.t.val == self.t.id } }
+impl Default for Zst { fn default() -> Zst { Zst::make() } }
+impl Elem for Zst { const SHAPE: &'static str = "zero-sized with Drop"; const TRACKED: bool = false; fn make() -> Zst { ZC.with(|c| { let (a, b) = c.get(); c.set((a + 1, b)); }); Zst } fn eid(&self) -> u32 { u32::MAX } fn intact(&self) -> bool { true } }
+fn eids<E: Elem>(v: &[E]) -> Vec<u32> { v.iter().map(|e| e.eid()).collect() }
+fn want_ids<E: Elem>(w: Vec<u32>) -> Vec<u32> { if E::TRACKED { w } else { vec![u32::MAX; w.len()] } }
+
+fn cursor_states(n: usize, all: bool) -> Vec<(usize, usize)> {
+    let cur: Vec<usize> = if all { (0..=n).collect() } else { let mut v = vec![0, 1, 2, n / 2, n - 2, n - 1, n]; v.sort(); v.dedup(); v };
+    cur.iter().flat_map(|&f| cur.iter().map(move |&b| (f, b))).filter(|&(f, b)| f + b <= n).collect()
+}
+
+/// The consuming iterator over elements of shape `E`: every cursor state of the stated set, pulls checked by id and payload,
+/// length reports, the observation set with the ledger watching, nothing dropped before the iterator is, exactly the live range
+/// dropped by the iterator, the yielded elements still intact afterwards, ledger balanced at the end.
+fn shape_iter<V, E>(s: &Section)
+where E: Elem, V: VecN<E> + IntoIterator<Item = E> + 'static, V::IntoIter: DoubleEndedIterator + ExactSizeIterator + Debug + PartialEq + Hash {
+    let n = V::N;
+    let site = format!("{}::IntoIter<{}>", V::NAME, E::SHAPE);
+    let states = cursor_states(n, n <= 8 || s.thorough());
+    'st: for &(f, b) in &states {
+        s.eval(f + b > 0);
+        let w = (f + b) as u64;
+        let r = catch(|| -> Option<()> {
+            reset_all();
+            let v = V::from_elems((0..n).map(|_| E::make()).collect());
+            let mut it = v.into_iter();
+            let mut held: Vec<E> = Vec::new();
+            for i in 0..f { match it.next() { Some(e) if (!E::TRACKED || e.eid() as usize == i) && e.intact() => { if E::TRACKED { tok::mark_yielded(e.eid()); } held.push(e) } o => { s.violation_w(&site, "wrong-element-from-next", json!({"state": [f, b], "pull": i, "got": o.as_ref().map(|e| e.eid()), "payload_intact": o.as_ref().map(|e| e.intact())}), w); return None; } } }
+            for i in 0..b { match it.next_back() { Some(e) if (!E::TRACKED || e.eid() as usize == n - 1 - i) && e.intact() => { if E::TRACKED { tok::mark_yielded(e.eid()); } held.push(e) } o => { s.violation_w(&site, "wrong-element-from-next_back", json!({"state": [f, b], "pull": i, "got": o.as_ref().map(|e| e.eid()), "payload_intact": o.as_ref().map(|e| e.intact())}), w); return None; } } }
+            let rem = n - f - b;
+            if it.len() != rem || it.size_hint() != (rem, Some(rem)) { s.violation_w(&site, "wrong-length-report", json!({"state": [f, b], "len": it.len(), "size_hint": format!("{:?}", it.size_hint())}), w); }
+            tok::set_watch(true);
+            let _ = format!("{:?}", it); let _ = format!("{:#?}", it);
+            let mut h = DefaultHasher::new(); it.hash(&mut h); let _ = h.finish();
+            #[allow(clippy::eq_op)] let _ = (it == it, it != it);
+            tok::set_watch(false);
+            if let Some(fl) = tok::faults().into_iter().next() { s.violation_w(&site, "safe-observation-reads-moved-out-element", json!({"state": [f, b], "what": fl}), w); return None; }
+            if dropped_total() != 0 { s.violation_w(&site, "element-dropped-before-the-iterator-is", json!({"state": [f, b], "dropped": dropped_total()}), w); }
+            drop(it);
+            let d = dropped_total();
+            if d != rem { s.violation_w(&site, if d < rem { "drop-leaks-unyielded-element" } else { "drop-drops-yielded-element" }, json!({"state": [f, b], "dropped_by_the_iterator": d, "live_range": rem}), w); }
+            if E::TRACKED { let st = tok::states(); for id in 0..n { let live = id >= f && id < n - b; if live != (st[id] == St::Dropped) { s.violation_w(&site, if live { "drop-leaks-unyielded-element" } else { "drop-drops-yielded-element" }, json!({"state": [f, b], "element": id}), w); } } }
+            if let Some(bad) = held.iter().find(|e| !e.intact()) { s.violation_w(&site, "yielded-element-corrupted", json!({"state": [f, b], "element": bad.eid()}), w); }
+            drop(held);
+            if let Err((c, dd)) = balanced_all() { s.violation_w(&site, c, json!({"state": [f, b], "what": dd}), w); }
+            Some(())
+        });
+        if let Err(c) = r { s.violation_w(&site, "panic", json!({"state": [f, b], "what": format!("{:?}", c)}), w); continue 'st; }
+    }
+    s.class(E::SHAPE);
+}
+
+macro_rules! shape_conv { ($s:expr, $V:ident, $n:expr, $E:ty) => {{
+    #[inline(never)] fn go(s: &Section) { const N: usize = $n; type E = $E; let name = <$V<E> as VecN<E>>::NAME; let shape = <E as Elem>::SHAPE;
+    let seq = || want_ids::<E>((0..N as u32).collect());
+    { let site = format!("From<[T;{}]> for {}<{}>", N, name, shape); s.eval(true); reset_all();
+      let a: [E; N] = std::array::from_fn(|_| <E as Elem>::make());
+      let v = $V::from(a); if dropped_total() != 0 { s.violation(&site, "element-dropped-during-conversion", json!({"dropped": dropped_total()})); }
+      let e = v.into_elems(); if eids(&e) != seq() || e.iter().any(|x| !x.intact()) { s.violation(&site, "wrong-order", json!({"got": eids(&e)})); }
+      drop(e); if let Err((c, d)) = balanced_all() { s.violation(&site, c, json!({"what": d})); } }
+    { let site = format!("{}<{}>::into_array", name, shape); s.eval(true); reset_all();
+      let v = <$V<E> as VecN<E>>::from_elems((0..N).map(|_| <E as Elem>::make()).collect()); let a = v.into_array(); if dropped_total() != 0 { s.violation(&site, "element-dropped-during-conversion", json!({"dropped": dropped_total()})); }
+      if eids(&a) != seq() || a.iter().any(|x| !x.intact()) { s.violation(&site, "wrong-order", json!({"got": eids(&a)})); }
+      drop(a); if let Err((c, d)) = balanced_all() { s.violation(&site, c, json!({"what": d})); } }
+    for len in [0, 1, N - 1, N, N + 2] { let site = format!("FromIterator for {}<{}>", name, shape); s.eval(len != N); reset_all();
+      let src: Vec<E> = (0..len).map(|_| <E as Elem>::make()).collect();
+      let v: $V<E> = src.into_iter().collect();
+      let e = v.into_elems(); let got = eids(&e);
+      if e.len() != N || e.iter().any(|x| !x.intact()) { s.violation(&site, "wrong-order", json!({"iterator_length": len, "got": got})); }
+      if <E as Elem>::TRACKED { for i in 0..N { if i < len.min(N) { if got[i] != i as u32 { s.violation(&site, "wrong-order", json!({"iterator_length": len, "got": got})); break; } } else if (got[i] as usize) < len { s.violation(&site, "tail-not-default", json!({"iterator_length": len, "got": got})); break; } } }
+      drop(e); if let Err((c, d)) = balanced_all() { s.violation(&site, c, json!({"iterator_length": len, "what": d})); } }
+    { let site = format!("{}<{}>: slice views", name, shape); s.eval(true); reset_all();
+      let mut v = <$V<E> as VecN<E>>::from_elems((0..N).map(|_| <E as Elem>::make()).collect());
+      let want: Vec<*const E> = addrs::<E, _>(&v);
+      let g1: Vec<*const E> = v.as_slice().iter().map(|e| e as *const E).collect();
+      let g2: Vec<*const E> = v.as_mut_slice().iter_mut().map(|e| e as *mut E as *const E).collect();
+      if g1 != want || g2 != want { s.violation(&site, "view-entry-is-not-the-field-in-declaration-order", json!({"as_slice_entries": g1.len(), "as_mut_slice_entries": g2.len(), "want_entries": N})); }
+      if eids(v.as_slice()) != seq() || v.as_slice().iter().any(|x| !x.intact()) { s.violation(&site, "wrong-order", json!({"got": eids(v.as_slice())})); }
+      if dropped_total() != 0 { s.violation(&site, "element-dropped-during-conversion", json!({"dropped": dropped_total()})); }
+      drop(v); if let Err((c, d)) = balanced_all() { s.violation(&site, c, json!({"what": d})); } }
+    } let s_: &Section = $s; guarded(s_, format!("shape_conv! {} {}", stringify!($V), stringify!($E)), || go(s_));
+}} }
+
+macro_rules! shape_mat { ($s:expr, $M:ident, $n:expr, $lay:ident, $layname:expr, $lines:ident, $V:ident, $E:ty) => {{
+    #[inline(never)] fn go(s: &Section) { const N: usize = $n; const NN: usize = N * N; type E = $E; let shape = <E as Elem>::SHAPE;
+    let name = format!("Mat{}<{}><{}>", N, $layname, shape);
+    // element (i,j) carries id i*N+j
+    let build = || -> $lay::$M<E> {
+        reset_all();
+        let mut t: Vec<Option<E>> = (0..NN).map(|_| Some(<E as Elem>::make())).collect();
+        let line = |t: &mut Vec<Option<E>>, k: usize| -> $V<E> { <$V<E> as VecN<E>>::from_elems((0..N).map(|l| { let (i, j) = if $layname == "row" { (k, l) } else { (l, k) }; t[i * N + j].take().unwrap() }).collect()) };
+        let lines: Vec<$V<E>> = (0..N).map(|k| line(&mut t, k)).collect();
+        $lay::$M { $lines: <$V<$V<E>> as VecN<$V<E>>>::from_elems(lines) }
+    };
+    let decode = |m: $lay::$M<E>| -> (Vec<Vec<u32>>, bool) { // [i][j], all payloads intact
+        let lines: Vec<Vec<E>> = m.$lines.into_elems().into_iter().map(|l| l.into_elems()).collect();
+        let mut out = vec![vec![0u32; N]; N]; let mut ok = true;
+        for (k, l) in lines.iter().enumerate() { for (x, t) in l.iter().enumerate() { let (i, j) = if $layname == "row" { (k, x) } else { (x, k) }; out[i][j] = t.eid(); ok &= t.intact(); } }
+        (out, ok)
+    };
+    let tr = <E as Elem>::TRACKED;
+    let want_rows: Vec<u32> = want_ids::<E>((0..NN as u32).collect());
+    let want_cols: Vec<u32> = want_ids::<E>((0..N).flat_map(|j| (0..N).map(move |i| (i * N + j) as u32)).collect());
+    let want_ij: Vec<Vec<u32>> = (0..N).map(|i| (0..N).map(|j| if tr { (i * N + j) as u32 } else { u32::MAX }).collect()).collect();
+    let want_t: Vec<Vec<u32>> = (0..N).map(|i| (0..N).map(|j| if tr { (j * N + i) as u32 } else { u32::MAX }).collect()).collect();
+    let during = |site: &str| { if dropped_total() != 0 { s.violation(site, "element-dropped-during-conversion", json!({"dropped": dropped_total()})); } };
+    let after = |site: &str| { if let Err((c, d)) = balanced_all() { s.violation(site, c, json!({"what": d})); } };
+    { let site = format!("{}::into_row_array", name); s.eval(true); let a = build().into_row_array(); during(&site); if eids(&a) != want_rows || a.iter().any(|x| !x.intact()) { s.violation(&site, "wrong-order", json!({"got": eids(&a)})); } drop(a); after(&site); }
+    { let site = format!("{}::into_col_array", name); s.eval(true); let a = build().into_col_array(); during(&site); if eids(&a) != want_cols || a.iter().any(|x| !x.intact()) { s.violation(&site, "wrong-order", json!({"got": eids(&a)})); } drop(a); after(&site); }
+    { let site = format!("{}::into_row_arrays", name); s.eval(true); let a = build().into_row_arrays(); during(&site); let g: Vec<u32> = a.iter().flat_map(|r| r.iter().map(|t| t.eid())).collect(); if g != want_rows || a.iter().flatten().any(|x| !x.intact()) { s.violation(&site, "wrong-order", json!({"got": g})); } drop(a); after(&site); }
+    { let site = format!("{}::into_col_arrays", name); s.eval(true); let a = build().into_col_arrays(); during(&site); let g: Vec<u32> = a.iter().flat_map(|r| r.iter().map(|t| t.eid())).collect(); if g != want_cols || a.iter().flatten().any(|x| !x.intact()) { s.violation(&site, "wrong-order", json!({"got": g})); } drop(a); after(&site); }
+    { let site = format!("{}::from_row_array", name); s.eval(true); reset_all(); let a: [E; NN] = std::array::from_fn(|_| <E as Elem>::make()); let m = $lay::$M::from_row_array(a); during(&site); let (g, ok) = decode(m); if g != want_ij || !ok { s.violation(&site, "wrong-order", json!({"got": g, "payloads_intact": ok})); } after(&site); }
+    { let site = format!("{}::from_col_array", name); s.eval(true); reset_all(); let a: [E; NN] = std::array::from_fn(|_| <E as Elem>::make()); let m = $lay::$M::from_col_array(a); during(&site); let (g, ok) = decode(m); if g != want_t || !ok { s.violation(&site, "wrong-order", json!({"got": g, "payloads_intact": ok})); } after(&site); }
+    { let site = format!("{}::from_row_arrays", name); s.eval(true); reset_all(); let a: [[E; N]; N] = std::array::from_fn(|_| std::array::from_fn(|_| <E as Elem>::make())); let m = $lay::$M::from_row_arrays(a); during(&site); let (g, ok) = decode(m); if g != want_ij || !ok { s.violation(&site, "wrong-order", json!({"got": g, "payloads_intact": ok})); } after(&site); }
+    { let site = format!("{}::from_col_arrays", name); s.eval(true); reset_all(); let a: [[E; N]; N] = std::array::from_fn(|_| std::array::from_fn(|_| <E as Elem>::make())); let m = $lay::$M::from_col_arrays(a); during(&site); let (g, ok) = decode(m); if g != want_t || !ok { s.violation(&site, "wrong-order", json!({"got": g, "payloads_intact": ok})); } after(&site); }
+    s.class(&format!("Mat{}<{}>", N, $layname));
+    } let s_: &Section = $s; guarded(s_, format!("shape_mat! {} {} {} {}", stringify!($V), stringify!($M), stringify!($lay), stringify!($E)), || go(s_));
+}} }
+
+// ---- field addresses: the oracle for "slice views alias the value's own storage" ---------------------
+/// References to the public fields in declaration order (struct-literal / field access only).
+trait Fields<T> { fn refs(&self) -> Vec<&T>; }
+macro_rules! fields { ($V:ident: $($f:tt)+) => { impl<T> Fields<T> for $V<T> { fn refs(&self) -> Vec<&T> { vec![$(&self.$f),+] } } } }
+fields!(Vec2: x y); fields!(Vec3: x y z); fields!(Vec4: x y z w); fields!(Extent2: w h); fields!(Extent3: w h d);
+fields!(Rgb: r g b); fields!(Rgba: r g b a); fields!(Uv: u v); fields!(Uvw: u v w);
+fields!(Vec8: 0 1 2 3 4 5 6 7);
+fields!(Vec16: 0 1 2 3 4 5 6 7 8 9 10 11 12 13 14 15);
+fields!(Vec32: 0 1 2 3 4 5 6 7 8 9 10 11 12 13 14 15 16 17 18 19 20 21 22 23 24 25 26 27 28 29 30 31);
+fields!(Vec64: 0 1 2 3 4 5 6 7 8 9 10 11 12 13 14 15 16 17 18 19 20 21 22 23 24 25 26 27 28 29 30 31 32 33 34 35 36 37 38 39 40 41 42 43 44 45 46 47 48 49 50 51 52 53 54 55 56 57 58 59 60 61 62 63);
+fn addrs<T, F: Fields<T>>(v: &F) -> Vec<*const T> { v.refs().into_iter().map(|r| r as *const T).collect() }
+
+/// All twelve view forms of a vector, entry by entry against the addresses of the public fields; for Copy elements also a write
+/// through every mutable view on every lane (lane-distinct values), read back through the fields.
+macro_rules! views { ($s:expr, $V:ident, $n:expr, $T:ty, $elname:expr, $mk:expr, $write:expr) => {{
+    #[inline(never)] fn go(s: &Section) { const N: usize = $n; type T = $T; let name = <$V<T> as VecN<T>>::NAME;
+    let site = format!("{}<{}>: slice views", name, $elname);
+    let mk = $mk;
+    tok::reset();
+    let mut v = <$V<T> as VecN<T>>::from_elems((0..N as u32).map(|i| mk(i)).collect());
+    let want: Vec<*const T> = addrs::<T, _>(&v);
+    let all_alias = std::cell::Cell::new(true);
+    let chk = |view: &str, got: Vec<*const T>| { s.eval(true); if got != want { all_alias.set(false); let at = got.iter().zip(want.iter()).position(|(a, b)| a != b); s.violation_w(&site, "view-entry-is-not-the-field-in-declaration-order", json!({"view": view, "entries": got.len(), "want_entries": N, "first_mismatching_entry": at}), N as u64); } };
+    chk("as_slice", v.as_slice().iter().map(|e| e as *const T).collect());
+    chk("Deref", (&*v).iter().map(|e| e as *const T).collect());
+    chk("AsRef<[T]>", <$V<T> as AsRef<[T]>>::as_ref(&v).iter().map(|e| e as *const T).collect());
+    chk("Borrow<[T]>", <$V<T> as Borrow<[T]>>::borrow(&v).iter().map(|e| e as *const T).collect());
+    chk("IntoIterator for &V", (&v).into_iter().map(|e| e as *const T).collect());
+    chk("iter()", v.iter().map(|e| e as *const T).collect());
+    chk("as_mut_slice", v.as_mut_slice().iter_mut().map(|e| e as *mut T as *const T).collect());
+    chk("DerefMut", (&mut *v).iter_mut().map(|e| e as *mut T as *const T).collect());
+    chk("AsMut<[T]>", <$V<T> as AsMut<[T]>>::as_mut(&mut v).iter_mut().map(|e| e as *mut T as *const T).collect());
+    chk("BorrowMut<[T]>", <$V<T> as BorrowMut<[T]>>::borrow_mut(&mut v).iter_mut().map(|e| e as *mut T as *const T).collect());
+    chk("IntoIterator for &mut V", (&mut v).into_iter().map(|e| e as *mut T as *const T).collect());
+    chk("iter_mut()", v.iter_mut().map(|e| e as *mut T as *const T).collect());
+    s.eval(true);
+    if (&v).into_iter().len() != N || (&mut v).into_iter().len() != N { s.violation(&site, "view-entry-is-not-the-field-in-declaration-order", json!({"view": "ExactSizeIterator::len of the borrowing iterators"})); }
+    if <$V<T> as AsRef<$V<T>>>::as_ref(&v) as *const $V<T> != &v as *const $V<T> || <$V<T> as AsMut<$V<T>>>::as_mut(&mut v) as *mut $V<T> as *const $V<T> != &v as *const $V<T> { s.violation(&site, "view-entry-is-not-the-field-in-declaration-order", json!({"view": "AsRef<Self>/AsMut<Self>"})); }
+    // writing through a view that is NOT the value's storage would be the defect's undefined behaviour, not ours: only when all alias
+    if all_alias.get() { ($write)(s, &site, &mut v); }
+    drop(v);
+    if let Some(f) = tok::faults().into_iter().next() { s.violation(&site, "ledger-fault", json!({"what": f})); }
+    if tok::states().iter().any(|x| *x != St::Dropped) { s.violation(&site, "element-leaked", json!({})); }
+    } let s_: &Section = $s; guarded(s_, format!("views! {} {}", stringify!($V), stringify!($T)), || go(s_));
+}} }
+/// write pass for Copy elements: through each of the six mutable views, every lane, lane-distinct values; fields read back by value
+macro_rules! write_pass { ($V:ident, $n:expr, $T:ty, $mk:expr) => { |s: &Section, site: &str, v: &mut $V<$T>| {
+    const N: usize = $n; let mk = $mk;
+    // values seen through the shared views are the field values, in order
+    let init: Vec<$T> = (0..N as u32).map(|i| mk(i)).collect();
+    if v.as_slice() != &init[..] || !(&*v).into_iter().eq(init.iter()) || !v.iter().eq(init.iter()) { s.violation(site, "wrong-order", json!({"view": "as_slice / &V / iter()"})); }
+    for k in 0..6u32 {
+        let val = |i: usize| mk((k * 37 + i as u32 * 3 + 1) % 256);
+        match k {
+            0 => for i in 0..N { v.as_mut_slice()[i] = val(i); },
+            1 => for i in 0..N { (&mut **v)[i] = val(i); },
+            2 => for i in 0..N { <$V<$T> as AsMut<[$T]>>::as_mut(v)[i] = val(i); },
+            3 => for i in 0..N { <$V<$T> as BorrowMut<[$T]>>::borrow_mut(v)[i] = val(i); },
+            4 => for (i, e) in (&mut *v).into_iter().enumerate() { *e = val(i); },
+            _ => for (i, e) in v.iter_mut().enumerate() { *e = val(i); },
+        }
+        s.eval(true);
+        let got = <$V<$T> as VecN<$T>>::into_elems(*v);
+        let want: Vec<$T> = (0..N).map(val).collect();
+        if got != want { s.violation_w(site, "write-through-view-not-visible-in-fields", json!({"mutable_view": k, "first_wrong_lane": got.iter().zip(want.iter()).position(|(a, b)| a != b)}), N as u64); }
+        // and back: what the fields hold is what every shared view shows
+        if v.as_slice() != &want[..] { s.violation_w(site, "wrong-order", json!({"view": "as_slice after a write pass", "mutable_view": k}), N as u64); }
+    }
+} } }
+fn no_write<V>(_: &Section, _: &str, _: &mut V) {}
+
+macro_rules! views_all { ($s:expr, $V:ident, $n:expr) => {{
+    views!($s, $V, $n, u8, "u8", |x: u32| x as u8, write_pass!($V, $n, u8, |x: u32| x as u8));
+    views!($s, $V, $n, u32, "u32", |x: u32| 100 + x, write_pass!($V, $n, u32, |x: u32| 100 + x));
+    views!($s, $V, $n, u64, "u64", |x: u32| ((x as u64) << 33) | x as u64, write_pass!($V, $n, u64, |x: u32| ((x as u64) << 33) | x as u64));
+    views!($s, $V, $n, u128, "u128", |x: u32| ((x as u128 + 1) << 100) | x as u128, write_pass!($V, $n, u128, |x: u32| ((x as u128 + 1) << 100) | x as u128));
+    views!($s, $V, $n, [u8; 3], "[u8;3]", |x: u32| [x as u8, !(x as u8), 7], write_pass!($V, $n, [u8; 3], |x: u32| [x as u8, !(x as u8), 7]));
+    views!($s, $V, $n, (), "()", |_x: u32| (), no_write::<$V<()>>);
+    views!($s, $V, $n, Tok, "Tok", |_x: u32| Tok::new(), |s: &Section, site: &str, v: &mut $V<Tok>| { if ids(v.as_slice()) != (0..$n as u32).collect::<Vec<_>>() || !tok::dropped_ids().is_empty() { s.violation(site, "wrong-order", json!({"got": ids(v.as_slice())})); } });
+    $s.class(<$V<Tok> as VecN<Tok>>::NAME);
+}} }
+
+/// `from_slice` (Copy + Default elements): every slice length 0..N+2, lane-distinct non-default values.
+macro_rules! from_slice { ($s:expr, $V:ident, $n:expr) => {{
+    #[inline(never)] fn go(s: &Section) { const N: usize = $n; let name = <$V<u32> as VecN<u32>>::NAME;
+    let site = format!("{}::from_slice", name);
+    for len in 0..=N + 2 {
+        s.eval(len != N);
+        let src: Vec<u32> = (0..len as u32).map(|i| 7 + 3 * i).collect();
+        let got = <$V<u32> as VecN<u32>>::into_elems($V::<u32>::from_slice(&src));
+        let want: Vec<u32> = (0..N).map(|i| if i < len { 7 + 3 * i as u32 } else { 0 }).collect();
+        if got != want { s.violation_w(&site, if got[..len.min(N)] != want[..len.min(N)] { "wrong-order" } else { "tail-not-default" }, json!({"slice": src, "got": got, "want": want}), len as u64); }
+        let src3: Vec<[u8; 3]> = (0..len as u8).map(|i| [i + 1, 200 - i, 9]).collect();
+        let got3 = <$V<[u8; 3]> as VecN<[u8; 3]>>::into_elems($V::<[u8; 3]>::from_slice(&src3));
+        let want3: Vec<[u8; 3]> = (0..N).map(|i| if i < len { [i as u8 + 1, 200 - i as u8, 9] } else { [0; 3] }).collect();
+        if got3 != want3 { s.violation_w(&site, "wrong-order", json!({"element": "[u8;3]", "slice_length": len, "got": got3}), len as u64); }
+    }
+    s.class("from_slice");
+    } let s_: &Section = $s; guarded(s_, format!("from_slice! {}", stringify!($V)), || go(s_));
+}} }
+
+/// `From<(SmallerVec<T>, T)>`: the tuple's vector lanes first, then the scalar; each moved once.
+macro_rules! conv_smaller { ($s:expr, $V:ident, $Small:ident, $n:expr) => {{
+    #[inline(never)] fn go(s: &Section) { const N: usize = $n; let name = <$V<Tok> as VecN<Tok>>::NAME;
+    let site = format!("From<({}, T)> for {}", <$Small<Tok> as VecN<Tok>>::NAME, name); s.eval(true);
+    let mut all = fresh(N); let last = all.pop().unwrap();
+    let small = <$Small<Tok> as VecN<Tok>>::from_elems(all);
+    let v = $V::from((small, last)); no_drops_yet(s, &site);
+    let e = v.into_elems(); if ids(&e) != (0..N as u32).collect::<Vec<_>>() { s.violation(&site, "wrong-order", json!({"got": ids(&e)})); }
+    drop(e); all_dropped_once(s, &site, N);
+    s.class("From<(smaller vector, scalar)>");
+    } let s_: &Section = $s; guarded(s_, format!("conv_smaller! {}", stringify!($V)), || go(s_));
+}} }
+
+/// map2 / map3: lane-wise pairing, every element of every operand moved exactly once.
+macro_rules! conv_mapn { ($s:expr, $V:ident, $n:expr) => {{
+    #[inline(never)] fn go(s: &Section) { const N: usize = $n; let name = <$V<Tok> as VecN<Tok>>::NAME;
+    { let site = format!("{}::map2", name); s.eval(true);
+      let mut all = fresh(2 * N); let second = all.split_off(N);
+      let (a, b) = (<$V<Tok> as VecN<Tok>>::from_elems(all), <$V<Tok> as VecN<Tok>>::from_elems(second));
+      let z = a.map2(b, |x, y| [x, y]); no_drops_yet(s, &site);
+      let e = z.into_elems(); for (i, p) in e.iter().enumerate() { if p[0].id != i as u32 || p[1].id != (N + i) as u32 { s.violation(&site, "wrong-pairing", json!({"lane": i, "got": [p[0].id, p[1].id]})); break; } }
+      drop(e); all_dropped_once(s, &site, 2 * N); }
+    { let site = format!("{}::map3", name); s.eval(true);
+      let mut all = fresh(3 * N); let third = all.split_off(2 * N); let second = all.split_off(N);
+      let (a, b, c) = (<$V<Tok> as VecN<Tok>>::from_elems(all), <$V<Tok> as VecN<Tok>>::from_elems(second), <$V<Tok> as VecN<Tok>>::from_elems(third));
+      let z = a.map3(b, c, |x, y, w| [x, y, w]); no_drops_yet(s, &site);
+      let e = z.into_elems(); for (i, p) in e.iter().enumerate() { if p[0].id != i as u32 || p[1].id != (N + i) as u32 || p[2].id != (2 * N + i) as u32 { s.violation(&site, "wrong-pairing", json!({"lane": i, "got": [p[0].id, p[1].id, p[2].id]})); break; } }
+      drop(e); all_dropped_once(s, &site, 3 * N); }
+    s.class("map2/map3");
+    } let s_: &Section = $s; guarded(s_, format!("conv_mapn! {}", stringify!($V)), || go(s_));
+}} }
+
+/// A consuming iterator in every cursor state collected back into the same vector type: the live range lands in the first lanes
+/// in order, the rest are fresh defaults, nothing is duplicated or lost (a call SEQUENCE through both unsafe halves).
+fn collect_back<V>(s: &Section)
+where V: VecN<Tok> + IntoIterator<Item = Tok> + FromIterator<Tok> + 'static, V::IntoIter: DoubleEndedIterator + ExactSizeIterator {
+    let n = V::N;
+    let site = format!("{}::into_iter() .. collect::<{}>()", V::NAME, V::NAME);
+    for (f, b) in cursor_states(n, n <= 8 || s.thorough()) {
+        for rev in [false, true] {
+            s.eval(f + b > 0);
+            let r = catch(|| {
+                tok::reset();
+                let v = V::from_elems((0..n).map(|_| Tok::new()).collect());
+                let mut it = v.into_iter();
+                let mut held = Vec::new();
+                for _ in 0..f { held.extend(it.next()); }
+                for _ in 0..b { held.extend(it.next_back()); }
+                let back: V = if rev { it.rev().collect() } else { it.collect() };
+                // the only drops so far are the defaults that were overwritten (ids >= n)
+                let early: Vec<u32> = tok::dropped_ids().into_iter().filter(|&id| (id as usize) < n).collect();
+                if !early.is_empty() { s.violation_w(&site, "element-dropped-during-conversion", json!({"state": [f, b], "reversed": rev, "dropped": early}), (f + b) as u64); }
+                if let Some(fl) = tok::faults().into_iter().next() { s.violation_w(&site, "ledger-fault", json!({"state": [f, b], "what": fl}), (f + b) as u64); }
+                let e = back.into_elems();
+                let mut want: Vec<u32> = (f as u32..(n - b) as u32).collect(); if rev { want.reverse(); }
+                let got = ids(&e);
+                if got[..want.len()] != want[..] { s.violation_w(&site, "wrong-order", json!({"state": [f, b], "reversed": rev, "got": got, "want_prefix": want}), (f + b) as u64); }
+                if got[want.len()..].iter().any(|&id| (id as usize) < n) { s.violation_w(&site, "tail-not-default", json!({"state": [f, b], "reversed": rev, "got": got}), (f + b) as u64); }
+                let mut hid = ids(&held); hid.sort(); let mut wh: Vec<u32> = (0..f as u32).chain((n - b) as u32..n as u32).collect(); wh.sort();
+                if hid != wh { s.violation_w(&site, "wrong-element-from-next", json!({"state": [f, b], "held": hid}), (f + b) as u64); }
+                drop(e); drop(held);
+                if let Some(fl) = tok::faults().into_iter().next() { s.violation_w(&site, "ledger-fault", json!({"state": [f, b], "what": fl}), (f + b) as u64); }
+                if tok::states().iter().any(|x| *x != St::Dropped) { s.violation_w(&site, "element-leaked", json!({"state": [f, b], "reversed": rev}), (f + b) as u64); }
+            });
+            if let Err(c) = r { s.violation_w(&site, "panic", json!({"state": [f, b], "what": format!("{:?}", c)}), (f + b) as u64); }
+        }
+    }
+    s.class("into_iter..collect");
+}
+
+/// FromIterator fed by iterators that lie about their length, and by one that panics after k elements.
+struct Lying<I> { inner: I, hint: (usize, Option<usize>) }
+impl<I: Iterator> Iterator for Lying<I> { type Item = I::Item; fn next(&mut self) -> Option<I::Item> { self.inner.next() } fn size_hint(&self) -> (usize, Option<usize>) { self.hint } }
+struct PanicAfter { left: usize }
+impl Iterator for PanicAfter { type Item = Tok; fn next(&mut self) -> Option<Tok> { if self.left == 0 { panic!("source iterator failed") } self.left -= 1; Some(Tok::new()) } }
+fn hostile_sources<V>(s: &Section)
+where V: VecN<Tok> + FromIterator<Tok> + 'static {
+    let n = V::N;
+    let site = format!("FromIterator for {}", V::NAME);
+    let lens: Vec<usize> = if n <= 8 || s.thorough() { (0..=n + 2).collect() } else { vec![0, 1, n / 2, n - 1, n, n + 1, n + 2] };
+    for &len in &lens {
+        for hint in [(0, Some(0)), (0, None), (1000, Some(1000)), (usize::MAX, None)] {
+            s.eval(true);
+            let r = catch(|| {
+                tok::reset();
+                let src: Vec<Tok> = (0..len).map(|_| Tok::new()).collect();
+                let v: V = Lying { inner: src.into_iter(), hint }.collect();
+                let e = v.into_elems(); let got = ids(&e);
+                for i in 0..n { if i < len.min(n) { if got[i] != i as u32 { s.violation_w(&site, "wrong-order", json!({"iterator_length": len, "size_hint": format!("{:?}", hint), "got": got}), len as u64); break; } } else if (got[i] as usize) < len { s.violation_w(&site, "tail-not-default", json!({"iterator_length": len, "size_hint": format!("{:?}", hint), "got": got}), len as u64); break; } }
+                drop(e);
+                if let Some(f) = tok::faults().into_iter().next() { s.violation_w(&site, "ledger-fault", json!({"iterator_length": len, "size_hint": format!("{:?}", hint), "what": f}), len as u64); }
+                if tok::states().iter().any(|x| *x != St::Dropped) { s.violation_w(&site, "element-leaked", json!({"iterator_length": len, "size_hint": format!("{:?}", hint)}), len as u64); }
+            });
+            if let Err(c) = r { s.violation_w(&site, "panic", json!({"iterator_length": len, "size_hint": format!("{:?}", hint), "what": format!("{:?}", c)}), len as u64); }
+        }
+    }
+    // a source that panics after k elements (k < N, so the panic is reached): no element may be dropped twice or touched after its
+    // drop while the half-built vector unwinds. (Whether the elements already received leak on a panic is left open by the property.)
+    let mut leaked = 0usize;
+    for k in 0..n.min(if s.thorough() { 64 } else { 9 }) {
+        s.eval(true);
+        tok::reset();
+        let r = catch(|| { let v: V = PanicAfter { left: k }.collect(); v });
+        if r.is_ok() { s.rep.machinery_error(format!("{}: the panicking source (k = {}) was never pulled to its panic", V::NAME, k)); }
+        drop(r);
+        if let Some(f) = tok::faults().into_iter().next() { s.violation_w(&site, "ledger-fault", json!({"source": "panics after k elements", "k": k, "what": f}), k as u64); }
+        leaked += tok::states().iter().filter(|x| **x != St::Dropped).count();
+    }
+    s.meta(&format!("{}: elements not dropped after a panicking source (not asserted)", V::NAME), json!(leaked));
+    s.class("hostile sources");
+}
+
+/// Sum / Product over an iterator of vectors with a NON-Copy numeric element: lane-wise result, every operand and every
+/// intermediate dropped exactly once.
+struct Cnt { v: i64, t: Tok }
+impl std::ops::Add for Cnt { type Output = Cnt; fn add(self, o: Cnt) -> Cnt { Cnt { v: self.v + o.v, t: Tok::new() } } }
+impl std::ops::Mul for Cnt { type Output = Cnt; fn mul(self, o: Cnt) -> Cnt { Cnt { v: self.v * o.v, t: Tok::new() } } }
+impl num_traits::Zero for Cnt { fn zero() -> Cnt { Cnt { v: 0, t: Tok::new() } } fn is_zero(&self) -> bool { self.v == 0 } }
+impl num_traits::One for Cnt { fn one() -> Cnt { Cnt { v: 1, t: Tok::new() } } }
+fn sums<V>(s: &Section)
+where V: VecN<Cnt> + std::iter::Sum + std::iter::Product + 'static {
+    let n = V::N;
+    for count in 0..=3usize {
+        for product in [false, true] {
+            let site = format!("{} for {}", if product { "Product" } else { "Sum" }, V::NAME);
+            s.eval(count > 0);
+            let r = catch(|| {
+                tok::reset();
+                let val = |j: usize, i: usize| (j as i64 + 2) * 10 + i as i64 % 7 - 3;
+                let vs: Vec<V> = (0..count).map(|j| V::from_elems((0..n).map(|i| Cnt { v: val(j, i), t: Tok::new() }).collect())).collect();
+                let operand_ids = tok::count();
+                let r: V = if product { vs.into_iter().product() } else { vs.into_iter().sum() };
+                let e = r.into_elems();
+                for (i, c) in e.iter().enumerate() {
+                    let want: i64 = if product { (0..count).map(|j| val(j, i)).product() } else { (0..count).map(|j| val(j, i)).sum() };
+                    if c.v != want { s.violation_w(&site, "wrong-value", json!({"vectors": count, "lane": i, "got": c.v, "want": want}), count as u64); break; }
+                    if tok::state(c.t.id) != St::Live { s.violation_w(&site, "ledger-fault", json!({"vectors": count, "lane": i, "what": "result element already dropped"}), count as u64); break; }
+                }
+                let st = tok::states();
+                if let Some(id) = (0..operand_ids).find(|&id| st[id] != St::Dropped) { if count > 0 { s.violation_w(&site, "element-leaked", json!({"vectors": count, "operand element": id}), count as u64); } }
+                drop(e);
+                if let Some(f) = tok::faults().into_iter().next() { s.violation_w(&site, "ledger-fault", json!({"vectors": count, "what": f}), count as u64); }
+                if tok::states().iter().any(|x| *x != St::Dropped) { s.violation_w(&site, "element-leaked", json!({"vectors": count}), count as u64); }
+            });
+            if let Err(c) = r { s.violation_w(&site, "panic", json!({"vectors": count, "what": format!("{:?}", c)}), count as u64); }
+        }
+    }
+    s.class("Sum/Product");
+}
+
+/// one element type of `mat_views!`; storage order: line k, lane l  ->  entry k*N + l
+macro_rules! mat_view_one { ($s:expr, $site:expr, $M:ident, $n:expr, $lay:ident, $lines:ident, $V:ident, $as_slice:ident, $as_mut_slice:ident, $as_ptr:ident, $as_mut_ptr:ident, $T:ty, $elname:expr, $mk:expr) => {{
+        #[inline(never)] fn go(s: &Section, site: &str) { const N: usize = $n; const NN: usize = N * N;
+        let mk = $mk;
+        let mut m = $lay::$M::<$T> { $lines: <$V<$V<$T>> as VecN<$V<$T>>>::from_elems((0..N).map(|k| <$V<$T> as VecN<$T>>::from_elems((0..N).map(|l| mk((k * N + l) as u32)).collect())).collect()) };
+        let want: Vec<*const $T> = m.$lines.refs().into_iter().flat_map(|line| line.refs()).map(|r| r as *const $T).collect();
+        s.eval(true);
+        let g1: Vec<*const $T> = m.$as_slice().iter().map(|e| e as *const $T).collect();
+        let g2: Vec<*const $T> = m.$as_mut_slice().iter_mut().map(|e| e as *mut $T as *const $T).collect();
+        let (p1, p2) = (m.$as_ptr(), m.$as_mut_ptr() as *const $T);
+        if g1 != want || g2 != want || p1 != want[0] || p2 != want[0] { s.violation_w(site, "view-entry-is-not-the-field-in-declaration-order", json!({"element": $elname, "entries": [g1.len(), g2.len()], "want_entries": NN, "ptr_is_first_field": [p1 == want[0], p2 == want[0]]}), NN as u64); }
+        let vals: Vec<$T> = (0..NN as u32).map(|i| mk(i)).collect();
+        if m.$as_slice() != &vals[..] { s.violation_w(site, "wrong-order", json!({"element": $elname}), NN as u64); }
+        // write every entry through the mutable view (only if it is the matrix's own storage), read the fields
+        s.eval(true);
+        if g2 != want { return; }
+        for i in 0..NN { m.$as_mut_slice()[i] = mk((i as u32 * 5 + 11) % 256); }
+        let got: Vec<$T> = m.$lines.into_elems().into_iter().flat_map(|l| l.into_elems()).collect();
+        let wantv: Vec<$T> = (0..NN).map(|i| mk((i as u32 * 5 + 11) % 256)).collect();
+        if got != wantv { s.violation_w(site, "write-through-view-not-visible-in-fields", json!({"element": $elname, "first_wrong_entry": got.iter().zip(wantv.iter()).position(|(a, b)| a != b)}), NN as u64); }
+    } let s_: &Section = $s; let site_: &str = $site; guarded(s_, format!("{} <{}>", site_, stringify!($T)), || go(s_, site_));
+}} }
+/// Matrix slice / pointer views (`as_row_slice` family on row-major, `as_col_slice` family on column-major matrices) against the
+/// addresses of the public fields, write-through on every lane, and with ownership tokens.
+macro_rules! mat_views { ($s:expr, $M:ident, $n:expr, $lay:ident, $layname:expr, $lines:ident, $V:ident, $as_slice:ident, $as_mut_slice:ident, $as_ptr:ident, $as_mut_ptr:ident, $map_lines:ident) => {{
+    #[inline(never)] fn go(s: &Section) { const N: usize = $n; const NN: usize = N * N;
+    let name = format!("Mat{}<{}>", N, $layname);
+    let site = format!("{}::{}/{}/{}/{}", name, stringify!($as_slice), stringify!($as_mut_slice), stringify!($as_ptr), stringify!($as_mut_ptr));
+    mat_view_one!(s, &site, $M, $n, $lay, $lines, $V, $as_slice, $as_mut_slice, $as_ptr, $as_mut_ptr, u8, "u8", |x: u32| x as u8);
+    mat_view_one!(s, &site, $M, $n, $lay, $lines, $V, $as_slice, $as_mut_slice, $as_ptr, $as_mut_ptr, u32, "u32", |x: u32| 100 + x);
+    mat_view_one!(s, &site, $M, $n, $lay, $lines, $V, $as_slice, $as_mut_slice, $as_ptr, $as_mut_ptr, u128, "u128", |x: u32| ((x as u128 + 1) << 100) | x as u128);
+    mat_view_one!(s, &site, $M, $n, $lay, $lines, $V, $as_slice, $as_mut_slice, $as_ptr, $as_mut_ptr, [u8; 3], "[u8;3]", |x: u32| [x as u8, !(x as u8), 7]);
+    { s.eval(true);
+      let t = fresh(NN); let mut it = t.into_iter();
+      let mut m = $lay::$M::<Tok> { $lines: <$V<$V<Tok>> as VecN<$V<Tok>>>::from_elems((0..N).map(|_| <$V<Tok> as VecN<Tok>>::from_elems((0..N).map(|_| it.next().unwrap()).collect())).collect()) };
+      let want: Vec<*const Tok> = m.$lines.refs().into_iter().flat_map(|line| line.refs()).map(|r| r as *const Tok).collect();
+      let g1: Vec<*const Tok> = m.$as_slice().iter().map(|e| e as *const Tok).collect();
+      let g2: Vec<*const Tok> = m.$as_mut_slice().iter_mut().map(|e| e as *mut Tok as *const Tok).collect();
+      if g1 != want || g2 != want { s.violation_w(&site, "view-entry-is-not-the-field-in-declaration-order", json!({"element": "Tok", "entries": [g1.len(), g2.len()], "want_entries": NN}), NN as u64); }
+      if ids(m.$as_slice()) != (0..NN as u32).collect::<Vec<_>>() { s.violation_w(&site, "wrong-order", json!({"element": "Tok", "got": ids(m.$as_slice())}), NN as u64); }
+      if g2 != want { drop(m); all_dropped_once(s, &site, NN); return; }
+      // swap two entries through the view: still one owner each
+      m.$as_mut_slice().swap(1, NN - 1);
+      no_drops_yet(s, &site);
+      // map_rows / map_cols move every line once
+      let mm = m.$map_lines(|l| l.map(|t| (t, 0u8))); no_drops_yet(s, &site);
+      let got: Vec<u32> = mm.$lines.into_elems().into_iter().flat_map(|l| l.into_elems()).map(|p| p.0.id).collect();
+      let mut want_ids: Vec<u32> = (0..NN as u32).collect(); want_ids.swap(1, NN - 1);
+      if got != want_ids { s.violation_w(&site, "wrong-order", json!({"after": "swap(1, last) through the mutable view, then map over the lines", "got": got}), NN as u64); }
+      all_dropped_once(s, &site, NN); }
+    s.class(&name);
+    } let s_: &Section = $s; guarded(s_, format!("mat_views! {} {} {}", stringify!($V), stringify!($M), stringify!($lay)), || go(s_));
 }} }
 
 fn main() {
@@ -336,33 +921,36 @@ fn main() {
     let mut tot = McTotals { states: 0, transitions: 0, max_depth: 0, samples: Vec::new() };
 
     rep.section("consuming iterator: every reachable (front, back) state and transition, per vector type",
-        "stateright BFS (8 threads, run twice, counts compared) over states (f,b) = elements pulled from the front/back, actions {next, next_back, len+size_hint, observe (Debug, ==, Hash with the ledger watching), drop}; every transition rebuilds a REAL vek IntoIter over fresh ownership tokens, replays the canonical path, applies the action and compares with a reference deque and the drop ledger; the search runs to its fixpoint ((N+1)(N+2)/2 live states + their dropped twins), no depth cap; non-trivial: all transitions", true, false, |s| {
+        "stateright BFS (one worker, so that the recorded depths stay deterministic now that nth() creates shortcuts; run twice, counts compared) over states (f,b) = elements pulled from the front/back, actions {next, next_back, len+size_hint, observe ({:?}, {:#?}, ==, !=, Hash with the ledger watching), drop, nth(k) and nth_back(k) for k in {1,3} (thorough: every k in 1..=N; the skipped elements must be dropped once by the iterator and never handed out, the rest is drained against the reference), count(), last(), rev().collect() (terminal: lead to the dropped twin)}; a panic of the real code is a violation of class `panic`; every transition rebuilds a REAL vek IntoIter over fresh ownership tokens, replays the canonical path, applies the action and compares with a reference deque and the drop ledger; the search runs to its fixpoint ((N+1)(N+2)/2 live states + their dropped twins, (8 + 2|K|) transitions per live state, both counts checked), no depth cap; non-trivial: all transitions", true, false, |s| {
         s.require_classes(&["Vec2", "Vec3", "Vec4", "Vec8", "Vec16", "Vec32", "Vec64", "Extent2", "Extent3", "Rgb", "Rgba", "Uv", "Uvw"]);
         for_all_vecs!(V => { model_check::<V<Tok>>(s, &mut tot); });
         for smp in &tot.samples { s.sample(smp.clone()); }
     });
 
     rep.section("consuming iterator: all unmerged histories for N <= 4",
-        "every sequence over {next, next_back, len, observe} of length <= N+3 (thorough: N+4), each followed by drop, executed from scratch on one real iterator with NO state merging, for the 9 vector types with N <= 4; reference deque + ledger at every step, and the set of yielded elements for (f,b) reached backs-first must equal the one reached fronts-first; non-trivial: non-empty histories", true, false, |s| {
-        let extra = if s.thorough() { 4 } else { 3 };
+        "every sequence over {next, next_back, len, observe} of length <= N+3 (thorough: N+6), each followed by drop, executed from scratch on one real iterator with NO state merging, for the 9 vector types with N <= 4; reference deque + ledger at every step, and the set of yielded elements for (f,b) reached backs-first must equal the one reached fronts-first; non-trivial: non-empty histories", true, false, |s| {
+        let extra = if s.thorough() { 6 } else { 3 };
         histories::<Vec2<Tok>>(s, 2 + extra); histories::<Vec3<Tok>>(s, 3 + extra); histories::<Vec4<Tok>>(s, 4 + extra);
         histories::<Extent2<Tok>>(s, 2 + extra); histories::<Extent3<Tok>>(s, 3 + extra);
         histories::<Rgb<Tok>>(s, 3 + extra); histories::<Rgba<Tok>>(s, 4 + extra); histories::<Uv<Tok>>(s, 2 + extra); histories::<Uvw<Tok>>(s, 3 + extra);
     });
 
     rep.section("two consuming iterators in different cursor states compared with each other",
-        "for each of the 13 vector types: every ordered pair of cursor states (f1,b1),(f2,b2) (all states for N <= 8; cursors from {0,1,2,N/2,N-2,N-1,N} for N >= 16) of two REAL iterators over separately tracked tokens whose live windows start with equal values: a == b, b == a, a != b with the ledger watching - no element already yielded by either iterator may be read, == is symmetric and != its negation; afterwards the ledger balances; non-trivial: the two states differ", true, false, |s| {
+        "for each of the 13 vector types: every ordered pair of cursor states (f1,b1),(f2,b2) (all states for N <= 8, thorough: all states for every N, i.e. 2145^2 pairs for Vec64; quick: cursors from {0,1,2,N/2,N-2,N-1,N} for N >= 16) of two REAL iterators over separately tracked tokens whose live windows start with equal values: a == b, b == a, a != b with the ledger watching - no element already yielded by either iterator may be read, == is symmetric and != its negation; afterwards the ledger balances; non-trivial: the two states differ", true, false, |s| {
         s.require_classes(&["Vec2", "Vec3", "Vec4", "Vec8", "Vec16", "Vec32", "Vec64", "Extent2", "Extent3", "Rgb", "Rgba", "Uv", "Uvw"]);
         for_all_vecs!(V => { compare_pairs::<V<Tok>>(s); });
     });
 
     rep.section("conversions move each element exactly once and keep the documented order",
-        "for each of the 13 vector types with ownership tokens: From<[T;N]>, into_array, collect() for EVERY iterator length 0..N+2, map, zip, slice views (as_slice, Deref, AsRef, Borrow, as_mut_slice, AsMut, DerefMut: same base address, length N, writes through the view visible in the fields); into_tuple/From<tuple> for N <= 4; for the 6 matrix types: {into,from}_{row,col}_array(s); ledger: nothing dropped during the conversion, everything dropped exactly once afterwards; non-trivial: all", true, false, |s| {
+        "for each of the 13 vector types with ownership tokens: From<[T;N]>, into_array, collect() for EVERY iterator length 0..N+2, map, zip, slice views (as_slice, Deref, AsRef, Borrow, as_mut_slice, AsMut, DerefMut: same base address, length N, writes through the view visible in the fields); into_tuple/From<tuple> for all 13 types (2..64 lanes); for the 6 matrix types: {into,from}_{row,col}_array(s); ledger: nothing dropped during the conversion, everything dropped exactly once afterwards; non-trivial: all", true, false, |s| {
         s.require_classes(&["Vec2", "Vec64", "Rgba", "Mat4<row>", "Mat4<col>", "Mat2<col>", "Mat3<row>"]);
         conv_vec!(s, Vec2, 2); conv_vec!(s, Vec3, 3); conv_vec!(s, Vec4, 4); conv_vec!(s, Vec8, 8); conv_vec!(s, Vec16, 16); conv_vec!(s, Vec32, 32); conv_vec!(s, Vec64, 64);
         conv_vec!(s, Extent2, 2); conv_vec!(s, Extent3, 3); conv_vec!(s, Rgb, 3); conv_vec!(s, Rgba, 4); conv_vec!(s, Uv, 2); conv_vec!(s, Uvw, 3);
         conv_tuple!(s, Vec2, [0, 1], 2); conv_tuple!(s, Vec3, [0, 1, 2], 3); conv_tuple!(s, Vec4, [0, 1, 2, 3], 4); conv_tuple!(s, Extent2, [0, 1], 2); conv_tuple!(s, Extent3, [0, 1, 2], 3);
         conv_tuple!(s, Rgb, [0, 1, 2], 3); conv_tuple!(s, Rgba, [0, 1, 2, 3], 4); conv_tuple!(s, Uv, [0, 1], 2); conv_tuple!(s, Uvw, [0, 1, 2], 3); conv_tuple!(s, Vec8, [0, 1, 2, 3, 4, 5, 6, 7], 8);
+        conv_tuple!(s, Vec16, [0, 1, 2, 3, 4, 5, 6, 7, 8, 9, 10, 11, 12, 13, 14, 15], 16);
+        conv_tuple!(s, Vec32, [0, 1, 2, 3, 4, 5, 6, 7, 8, 9, 10, 11, 12, 13, 14, 15, 16, 17, 18, 19, 20, 21, 22, 23, 24, 25, 26, 27, 28, 29, 30, 31], 32);
+        conv_tuple!(s, Vec64, [0, 1, 2, 3, 4, 5, 6, 7, 8, 9, 10, 11, 12, 13, 14, 15, 16, 17, 18, 19, 20, 21, 22, 23, 24, 25, 26, 27, 28, 29, 30, 31, 32, 33, 34, 35, 36, 37, 38, 39, 40, 41, 42, 43, 44, 45, 46, 47, 48, 49, 50, 51, 52, 53, 54, 55, 56, 57, 58, 59, 60, 61, 62, 63], 64);
         conv_mat!(s, Mat2, 2, rm, "row", rows, Vec2); conv_mat!(s, Mat2, 2, cm, "col", cols, Vec2);
         conv_mat!(s, Mat3, 3, rm, "row", rows, Vec3); conv_mat!(s, Mat3, 3, cm, "col", cols, Vec3);
         conv_mat!(s, Mat4, 4, rm, "row", rows, Vec4); conv_mat!(s, Mat4, 4, cm, "col", cols, Vec4);
@@ -370,7 +958,56 @@ fn main() {
         s.sample(json!({"call": "(0..5 tokens).collect::<Vec3<Tok>>()", "want": "ids [0,1,2] kept in order; tokens 3,4 never pulled or dropped once; no leak"}));
     });
 
+
+    rep.section("consuming iterator: unmerged pull orders for 8 and 16 lanes",
+        "every sequence over {next, next_back} of length <= N+1 (all 2^(N+2)-1 of them: every order of draining, and a pull beyond exhaustion), each executed from scratch on one real iterator with NO state merging, for Vec8 (thorough: also Vec16); after EVERY pull: len/size_hint against the reference deque and Debug/Hash/== with the ledger watching; then drop: exactly the live range is dropped, ledger balanced; non-trivial: non-empty histories", true, false, |s| {
+        s.require_classes(&["Vec8"]);
+        pull_histories::<Vec8<Tok>>(s);
+        if s.thorough() { pull_histories::<Vec16<Tok>>(s); }
+    });
+
+    rep.section("element shapes: sizes, alignments and zero-sized droppable elements",
+        "the element type ranges over 6 shapes of non-Copy element: Tok (8 bytes, align 4), token+u8 (12 bytes), token+u128 (align 16), token+[u64;5] (48 bytes), token+align(32) payload (64 bytes), and a zero-sized element whose Drop counts; payloads are derived from the id, so a read of the wrong offset/width is seen. For each of the 13 vector types x 6 shapes: the consuming iterator in every cursor state (all (f,b) for N <= 8, thorough: all N; else cursors {0,1,2,N/2,N-2,N-1,N}) - pulls by id and payload, length reports, {:?}/{:#?}/Hash/==/!= with the ledger watching, nothing dropped before the iterator, exactly the live range dropped by it, yielded elements intact afterwards; From<[T;N]>, into_array, collect() for lengths {0,1,N-1,N,N+2}, as_slice/as_mut_slice entry addresses = field addresses. For the 6 matrix types x 6 shapes: {into,from}_{row,col}_array(s). non-trivial: at least one pull / iterator length != N / all conversions", true, false, |s| {
+        s.require_classes(&["Tok: 8 bytes", "(Tok,u8): 12 bytes", "(Tok,u128): align 16", "(Tok,[u64;5]): 48 bytes", "(Tok,align32): align 32, 64 bytes", "zero-sized with Drop", "Mat2<row>", "Mat3<col>", "Mat4<row>", "Mat4<col>"]);
+        macro_rules! shapes_for_vec { ($V:ident, $n:expr) => {{
+            shape_iter::<$V<Tok>, Tok>(s); shape_iter::<$V<Pad<u8>>, Pad<u8>>(s); shape_iter::<$V<Pad<u128>>, Pad<u128>>(s); shape_iter::<$V<Pad<[u64; 5]>>, Pad<[u64; 5]>>(s); shape_iter::<$V<Pad<Al32>>, Pad<Al32>>(s); shape_iter::<$V<Zst>, Zst>(s);
+            shape_conv!(s, $V, $n, Pad<u8>); shape_conv!(s, $V, $n, Pad<u128>); shape_conv!(s, $V, $n, Pad<[u64; 5]>); shape_conv!(s, $V, $n, Pad<Al32>); shape_conv!(s, $V, $n, Zst);
+        }} }
+        shapes_for_vec!(Vec2, 2); shapes_for_vec!(Vec3, 3); shapes_for_vec!(Vec4, 4); shapes_for_vec!(Vec8, 8); shapes_for_vec!(Vec16, 16); shapes_for_vec!(Vec32, 32); shapes_for_vec!(Vec64, 64);
+        shapes_for_vec!(Extent2, 2); shapes_for_vec!(Extent3, 3); shapes_for_vec!(Rgb, 3); shapes_for_vec!(Rgba, 4); shapes_for_vec!(Uv, 2); shapes_for_vec!(Uvw, 3);
+        macro_rules! shapes_for_mat { ($M:ident, $n:expr, $lay:ident, $layname:expr, $lines:ident, $V:ident) => {{
+            shape_mat!(s, $M, $n, $lay, $layname, $lines, $V, Pad<u8>); shape_mat!(s, $M, $n, $lay, $layname, $lines, $V, Pad<u128>); shape_mat!(s, $M, $n, $lay, $layname, $lines, $V, Pad<[u64; 5]>); shape_mat!(s, $M, $n, $lay, $layname, $lines, $V, Pad<Al32>); shape_mat!(s, $M, $n, $lay, $layname, $lines, $V, Zst);
+        }} }
+        shapes_for_mat!(Mat2, 2, rm, "row", rows, Vec2); shapes_for_mat!(Mat2, 2, cm, "col", cols, Vec2);
+        shapes_for_mat!(Mat3, 3, rm, "row", rows, Vec3); shapes_for_mat!(Mat3, 3, cm, "col", cols, Vec3);
+        shapes_for_mat!(Mat4, 4, rm, "row", rows, Vec4); shapes_for_mat!(Mat4, 4, cm, "col", cols, Vec4);
+        s.meta("sizes", json!({"Tok": [std::mem::size_of::<Tok>(), std::mem::align_of::<Tok>()], "(Tok,u8)": [std::mem::size_of::<Pad<u8>>(), std::mem::align_of::<Pad<u8>>()], "(Tok,u128)": [std::mem::size_of::<Pad<u128>>(), std::mem::align_of::<Pad<u128>>()], "(Tok,[u64;5])": [std::mem::size_of::<Pad<[u64; 5]>>(), std::mem::align_of::<Pad<[u64; 5]>>()], "(Tok,align32)": [std::mem::size_of::<Pad<Al32>>(), std::mem::align_of::<Pad<Al32>>()], "Zst": [std::mem::size_of::<Zst>(), std::mem::align_of::<Zst>()]}));
+        s.sample(json!({"call": "Vec3<Zst>::into_iter(), next(), next_back(), drop", "want": "3 created; 0 dropped before the iterator is dropped; the iterator drops exactly 1; the 2 yielded ones are dropped by the caller"}));
+        s.sample(json!({"call": "column_major::Mat3<(Tok,u128)>::from_row_arrays(a)", "want": "element (i,j) = a[i][j] with its payload intact, nothing dropped during the conversion, 9 drops afterwards"}));
+    });
+
+    rep.section("slice views entry by entry against the field addresses; slices, tuples and iterators as sources",
+        "for each of the 13 vector types x element types {u8, u32, u64, u128, [u8;3], (), Tok}: the twelve views as_slice, Deref, AsRef<[T]>, Borrow<[T]>, IntoIterator for &V, iter(), as_mut_slice, DerefMut, AsMut<[T]>, BorrowMut<[T]>, IntoIterator for &mut V, iter_mut() - the address of EVERY entry equals the address of the public field in declaration order (so: N entries, own storage, order), AsRef<Self>/AsMut<Self> are the value itself; for the Copy elements a write of lane-distinct values through each of the six mutable views on every lane, read back through the fields, and the fields read back through the shared views; from_slice for every slice length 0..N+2 (prefix in order, default tail); From<(smaller vector, scalar)> for the 5 pairs; map2/map3; a consuming iterator in every cursor state collected back (and reversed) into the same vector type; FromIterator from sources with lying size_hints for every length, and from a source that panics after k < N elements (no double drop while unwinding); Sum/Product of 0..3 vectors of a non-Copy numeric element; for the 6 matrix types: as_{row,col}_slice / as_mut_{row,col}_slice / as_{row,col}_ptr / as_mut_{row,col}_ptr entry addresses = field addresses in storage order for {u8,u32,u128,[u8;3],Tok}, write-through on every entry, a swap through the mutable view followed by map_rows/map_cols with the ledger; non-trivial: all but the honest-length cases", true, false, |s| {
+        s.require_classes(&["Vec2", "Vec3", "Vec4", "Vec8", "Vec16", "Vec32", "Vec64", "Extent2", "Extent3", "Rgb", "Rgba", "Uv", "Uvw", "from_slice", "From<(smaller vector, scalar)>", "map2/map3", "into_iter..collect", "hostile sources", "Sum/Product", "Mat2<row>", "Mat2<col>", "Mat3<row>", "Mat3<col>", "Mat4<row>", "Mat4<col>"]);
+        macro_rules! more_for_vec { ($V:ident, $n:expr) => {{
+            views_all!(s, $V, $n); from_slice!(s, $V, $n); conv_mapn!(s, $V, $n);
+            collect_back::<$V<Tok>>(s); hostile_sources::<$V<Tok>>(s); sums::<$V<Cnt>>(s);
+        }} }
+        more_for_vec!(Vec2, 2); more_for_vec!(Vec3, 3); more_for_vec!(Vec4, 4); more_for_vec!(Vec8, 8); more_for_vec!(Vec16, 16); more_for_vec!(Vec32, 32); more_for_vec!(Vec64, 64);
+        more_for_vec!(Extent2, 2); more_for_vec!(Extent3, 3); more_for_vec!(Rgb, 3); more_for_vec!(Rgba, 4); more_for_vec!(Uv, 2); more_for_vec!(Uvw, 3);
+        conv_smaller!(s, Vec3, Vec2, 3); conv_smaller!(s, Vec4, Vec3, 4); conv_smaller!(s, Extent3, Extent2, 3); conv_smaller!(s, Rgba, Rgb, 4); conv_smaller!(s, Uvw, Uv, 3);
+        mat_views!(s, Mat2, 2, rm, "row", rows, Vec2, as_row_slice, as_mut_row_slice, as_row_ptr, as_mut_row_ptr, map_rows);
+        mat_views!(s, Mat3, 3, rm, "row", rows, Vec3, as_row_slice, as_mut_row_slice, as_row_ptr, as_mut_row_ptr, map_rows);
+        mat_views!(s, Mat4, 4, rm, "row", rows, Vec4, as_row_slice, as_mut_row_slice, as_row_ptr, as_mut_row_ptr, map_rows);
+        mat_views!(s, Mat2, 2, cm, "col", cols, Vec2, as_col_slice, as_mut_col_slice, as_col_ptr, as_mut_col_ptr, map_cols);
+        mat_views!(s, Mat3, 3, cm, "col", cols, Vec3, as_col_slice, as_mut_col_slice, as_col_ptr, as_mut_col_ptr, map_cols);
+        mat_views!(s, Mat4, 4, cm, "col", cols, Vec4, as_col_slice, as_mut_col_slice, as_col_ptr, as_mut_col_ptr, map_cols);
+        s.sample(json!({"call": "Vec64<u128>: (&mut v).into_iter()", "want": "64 entries, entry i at the address of field .i; writing 64 distinct values through it changes exactly those fields"}));
+        s.sample(json!({"call": "Vec4::<u32>::from_slice(&[7, 10])", "want": [7, 10, 0, 0]}));
+        s.sample(json!({"call": "Vec4<Tok>: into_iter(), next(), next_back(), rev().collect::<Vec4<Tok>>()", "want": "ids [2, 1, fresh, fresh]; 0 and 3 held by the caller; every token dropped once"}));
+    });
+
     let lk = json!({"states": tot.states, "transitions": tot.transitions, "traces_validated_against_impl": tot.transitions, "max_depth": tot.max_depth,
-        "explanation": "states/transitions summed over the 13 per-type models; every transition is executed on the real IntoIter (the model IS the implementation plus a reference deque), so traces validated = transitions"});
+        "explanation": "states/transitions summed over the 13 per-type models; every transition is executed on the real IntoIter (the model IS the implementation plus a reference deque), so traces validated = transitions; max_depth is the BFS depth (nth(k) shortcuts make it smaller than N)"});
     std::process::exit(rep.finish_with(lk));
 }
